@@ -121,7 +121,7 @@ func c16Exhaustive(ctx *core.Ctx) {
 	badf := &c16Node{Lines: []c16Line{c16Assign("A", c16Lit("y")), {Bad: true}}}
 	states := []st{{file, true, ""}, {file, false, ""}, {nil, true, ""}, {nil, false, ""}, {&c16Node{Dir: true}, true, ""},
 		{file, true, "raw"}, {nil, false, "raw"}, {nil, true, "raw"}, {&c16Node{Dir: true}, false, "raw"}, {badf, false, ""},
-		{&c16Node{NotDir: true}, false, ""}, {&c16Node{NotDir: true}, true, "raw"}}
+		{&c16Node{NotDir: true}, false, ""}, {&c16Node{NotDir: true}, true, "raw"}, {file, true, "c16kv"}, {&c16Node{Dir: true}, false, "c16kv"}}
 	for x, s1 := range states {
 		for y, s2 := range states {
 			for z, s3 := range states {
@@ -297,7 +297,9 @@ func c16RandArgs(r *rand.Rand, malformed, forLoad bool) c16Args {
 			used[p] = true
 			f := c16EnvFile{Path: p, Required: r.Intn(3) != 0}
 			if malformed && r.Intn(12) == 0 {
-				f.Format = "raw"
+				f.Format = "raw" // never registered
+			} else if r.Intn(14) == 0 {
+				f.Format = "c16kv" // registered by this harness (c16kvParser / kvParser)
 			}
 			s.EnvFiles = append(s.EnvFiles, f)
 		}
